@@ -61,6 +61,11 @@ claim("C07", "E1 model",
       "Every node of every small C01/C02-class grammar is wrapped in a map_with capture of span and slice, on &str (byte offsets, multi-byte text), &[char], Stream, and gapped-span kinds (Input::map over a slice, Stream::map, IterInput): every extent, every empty-match span, slice text and slice address (zero-copy), fold callback spans, spans handed to validate/try_map closures and zero-width probe spans are compared with the reference evaluation.",
       MODEL_NOTE, "DESIGN §5 C07")
 
+claim("C10", "E2 differential + E1 model",
+      "runtime monitoring: differential monitor between real executions of one grammar on one token sequence in 14 input representations (normalised by the documented re-basing), each also against the reference model; pull-log monitor on a counting iterator under Stream; Graphemes vs whole-string segmentation",
+      "&[char] is the reference; &str, &[char;N], Stream (plain, boxed, exact-size boxed, counting), IterInput, mapped (token,span) slice, Stream::map, with_context, map_span are normalised to token indices and compared field by field (acceptance, outputs with extents, every error, state, probe trace); inputs of 511..1301 tokens with alternatives failing across the 512-token batch; the counting iterator must be pulled 0,1,2,.. exactly once each; u8 grammars on &[u8] / IoInput / Stream / array; Graphemes tokens and spans against unicode-segmentation.",
+      MODEL_NOTE + " IterInput only implements Input, so its leaf basis is restricted.", "DESIGN §5 C10")
+
 NOT_CLAIMED = {}
 
 
